@@ -67,6 +67,12 @@ def impl_step(stores, pool, op) -> Any:
             st.clear(); return ["unit"]
         if k == "update":
             st.update([pool[j] for j in op[2]]); return ["unit"]
+        if k == "update_store":           # bulk insertion from another store object (the argument is any iterable)
+            st.update(stores[op[2]]); return ["unit"]
+        if k == "update_gen":             # ... from a one-shot generator
+            st.update(pool[j] for j in op[2]); return ["unit"]
+        if k == "ior":                    # MutableSet.__ior__
+            st |= stores[op[2]]; return ["unit"]
         if k == "get":
             return ["obj", uid[id(st.get_identifiable(op[2]))]]
         if k == "get_default":
@@ -95,8 +101,8 @@ def model_line(pool, op) -> List[Any]:
         return ["mux", op[1], op[2]]
     if k in ("add", "discard", "remove", "contains_obj"):
         return [k, op[1], jobj(pool, op[2])]
-    if k == "update":
-        return [k, op[1], [jobj(pool, j) for j in op[2]]]
+    if k in ("update", "update_gen"):
+        return ["update", op[1], [jobj(pool, j) for j in op[2]]]
     if k in ("get", "get_default", "contains_id"):
         return [k, op[1], op[2]]
     return [k, op[1]]
@@ -123,8 +129,12 @@ def impl_view(stores, pool, s):
 def gen_sequences(ctx: C.Ctx, rng: random.Random):
     mut = [["add", 0, k] for k in range(5)] + [["discard", 0, k] for k in range(5)] + [["remove", 0, k] for k in range(3)] + \
           [["pop", 0], ["clear", 0], ["update", 0, [0, 3, 1, 5]], ["update", 0, [4, 5]]]
+    # two-store prefixes: fill store 1, then merge it into store 0 in every way
+    fills = [[["add", 1, a], ["add", 1, b]] for a in range(6) for b in range(6) if a != b]
+    merges = [["update_store", 0, 1], ["ior", 0, 1], ["update_store", 0, 0]]
     depth = 2 if ctx.tier == "quick" else 4
     seqs = [list(s) for L in range(1, depth + 1) for s in itertools.product(mut, repeat=L)]
+    seqs += [[["add", 0, k]] + f + [m] for k in range(6) for f in fills for m in merges]
     if ctx.tier == "thorough":
         # length 4 over the full alphabet is 17^4 = 83521; keep all
         pass
@@ -145,8 +155,10 @@ def gen_sequences(ctx: C.Ctx, rng: random.Random):
                 s.append(["pop", st])
             elif r < 0.85:
                 s.append(["clear", st])
+            elif r < 0.9:
+                s.append([rng.choice(["update", "update_gen"]), st, [rng.randrange(6) for _ in range(rng.randint(0, 4))]])
             else:
-                s.append(["update", st, [rng.randrange(6) for _ in range(rng.randint(0, 4))]])
+                s.append([rng.choice(["update_store", "ior"]), st, rng.randrange(2)])
         seqs.append(s)
     return seqs, exhaustive_n, depth
 
@@ -191,8 +203,13 @@ def correspond(ctx: C.Ctx, cov: C.Coverage) -> List[C.Disagreement]:
         stores = [model.DictObjectStore(), model.DictObjectStore(), model.DictObjectStore()]
         nontriv = False
         for oi, op in enumerate(seq):
+            mop = op
+            if op[0] in ("update_store", "ior"):
+                # the model receives the objects the source store yields (its iteration is itself compared at every step)
+                uid = {id(o): i for i, o in enumerate(pool)}
+                mop = ["update", op[1], [uid[id(o)] for o in stores[op[2]]]]
             r = impl_step(stores, pool, op)
-            lines.append(model_line(pool, op)); impl.append(r); index.append((si, oi))
+            lines.append(model_line(pool, mop)); impl.append(r); index.append((si, oi))
             if r[0] == "raise" or op[0] in ("pop", "clear"):
                 nontriv = True
             cov.hit(op[0] + ("!" if r[0] == "raise" else ""))
@@ -278,9 +295,9 @@ def check_sequence(seq) -> Optional[C.Failing]:
                 del m[pool[r[1]].id]; exp = r
         elif k == "clear":
             m.clear(); exp = ["unit"]
-        elif k == "update":
+        elif k in ("update", "update_gen", "update_store", "ior"):
             exp = ["unit"]
-            for x in op[2]:
+            for x in (op[2] if k in ("update", "update_gen") else list(ref[op[2]].values())):
                 i = pool[x].id
                 if i in m and m[i] != x:
                     exp = ["raise", "KeyError"]; break
